@@ -1,9 +1,79 @@
-(** C05 -- statements only. *)
-From Coq Require Import NArith List.
-From FF Require Import Lib.Word Gen.Consts_mm_vmm Vmm.Pt Vmm.PtProofs.
+(** C05 -- the kernel address space maps each loaded section exactly, with W^X permissions.
+    Statements only; every proof is [exact <lemma from Vmm/PtKernel.v>].  Vocabulary as in Props/C04.v.
+    [setup_kernel off secs s] models setupPDTForKernel(kernelPageOffset) with the section table the
+    multiboot visitor delivers ((flags, address, size) triples; zero-size entries are dropped as
+    VisitElfSections does); [last s] is earlyReserveLastUsed; [kspec] is the address space to be built. *)
+From Coq Require Import NArith List Bool.
+From FF Require Import Lib.Word Gen.Consts_mm_vmm Vmm.Pt Vmm.PtArith Vmm.PtTree Vmm.PtMap Vmm.PtTheorems Vmm.PtPdt Vmm.PtHist Vmm.PtKernel.
 Import ListNotations.
 Local Open Scope N_scope.
 
-Theorem C05_levels : go_levels = [(39, 9); (30, 9); (21, 9); (12, 9)].
-Proof. exact go_levels_hw. Qed.
-Print Assumptions C05_levels.
+(** kernel_aspace.  From a boot address space A (invariant [Inv]) with the zero-frame guard not yet
+    armed, an allocator that hands out fresh frames (kf is the first), section tables whose pages avoid
+    the recursive window and whose frames stay below 2^40 ([sec_dom]), and a reserved range
+    [last s, tempMappingAddr) that lies in top-level slot 510, is page aligned and mapped in A:
+
+      - setupPDTForKernel never makes a stray access and returns nil or the allocator's error;
+      - on success the new root kf is the active one (cr3, one switchPDT call), the old and new trees are
+        disjoint and well formed, and EVERY page outside the recursive window translates in the new space
+        exactly as [kspec] says (sections in table order, then the reservations);
+      - on failure cr3 is unchanged;
+      - with 4 + 3 * (number of section pages + reserved pages) usable frames it succeeds. *)
+Theorem C05_kernel_aspace :
+  forall s A ownA off secs kf r,
+    Inv s A A ownA -> prot s = false -> orc s = kf :: r -> kf <> 0 ->
+    Forall (sec_dom off) (live_secs secs) ->
+    resv_lo <= last s -> last s <= vmm_tempMappingAddr -> last s mod 4096 = 0 ->
+    (forall a, last s <= a -> a < vmm_tempMappingAddr -> a mod 4096 = 0 -> translation s A (N.shiftr a 12) <> None) ->
+    exists s' err,
+      setup_kernel off secs s = Ok (s', err) /\ (err = 0 \/ err = E_ALLOC) /\
+      (err = 0 ->
+         cr3 s' = frame_addr kf /\ slog s' = frame_addr kf :: slog s /\ pdts s' kernel_slot = kf /\
+         (exists own' ownA', Inv2 s' kf A own' ownA') /\
+         (forall q, hw_idx q 0 <> 511 -> translation s' kf q = kspec s A off secs (ixs q))) /\
+      (err <> 0 -> cr3 s' = cr3 s /\ slog s' = slog s) /\
+      ((4 + 3 * (secs_need off (live_secs secs) + N.to_nat (resv_count (last s))) <= length (orc s))%nat -> nz (orc s) -> err = 0).
+Proof. exact kernel_aspace. Qed.
+Print Assumptions C05_kernel_aspace.
+
+(** [kspec] read page by page.  With sections that do not share a page with a later section or a
+    reservation: the i-th page of a section at or above the kernel offset maps to frame
+    (address - offset)/4096 + i with the section's flag word; a reserved page maps to the frame it had in
+    the old space, present and writable; every other page -- in particular every page of a section below
+    the offset -- is unmapped. *)
+Theorem C05_kspec_pages :
+  forall s A off secs,
+    resv_lo <= last s -> last s <= vmm_tempMappingAddr -> last s mod 4096 = 0 ->
+    (forall a, last s <= a -> a < vmm_tempMappingAddr -> a mod 4096 = 0 -> translation s A (N.shiftr a 12) <> None) ->
+    (forall sflags addr size, In (sflags, addr, size) (live_secs secs) -> sec_n addr size <= 2 ^ 36) ->
+    (forall l1 sflags addr size l2 q j,
+       live_secs secs = l1 ++ (sflags, addr, size) :: l2 -> sec_page off (sflags, addr, size) q j ->
+       (forall sec, In sec l2 -> ~ in_sec off sec q) -> (forall i, ~ resv_page s q i) ->
+       kspec s A off secs (ixs q) = Some (sec_frame off addr + j, sec_flags sflags)) /\
+    (forall q j f fl, resv_page s q j -> translation s A (N.shiftr (last s + 4096 * N.of_nat j) 12) = Some (f, fl) ->
+       kspec s A off secs (ixs q) = Some (f, P_RW)) /\
+    (forall q, (forall sec, In sec (live_secs secs) -> ~ in_sec off sec q) -> (forall i, ~ resv_page s q i) ->
+       kspec s A off secs (ixs q) = None).
+Proof. exact kspec_pages. Qed.
+Print Assumptions C05_kspec_pages.
+
+(** W^X: the flag word of a section is Present, plus NoExecute unless the section is executable, plus RW
+    iff it is writable; never UserAccessible. *)
+Theorem C05_section_flags :
+  forall sflags,
+    sec_flags sflags =
+    N.lor (N.lor vmm_FlagPresent (if N.land sflags sec_executable =? 0 then vmm_FlagNoExecute else 0))
+          (if N.land sflags sec_writable =? 0 then 0 else vmm_FlagRW) /\
+    N.land (sec_flags sflags) vmm_FlagUserAccessible = 0.
+Proof. exact sec_flags_val. Qed.
+Print Assumptions C05_section_flags.
+
+(** the quantities in [kspec]: for a section inside the 64-bit address space the first page is
+    address/4096, the number of pages is what [address, address+size) touches, the first frame is
+    (address - offset)/4096. *)
+Theorem C05_section_geometry :
+  forall off addr size, 0 < size -> addr + size <= two64 -> off <= addr ->
+    sec_cur addr = addr / 4096 /\ sec_n addr size = (addr + size - 1) / 4096 - addr / 4096 + 1 /\
+    sec_frame off addr = (addr - off) / 4096.
+Proof. exact sec_geometry. Qed.
+Print Assumptions C05_section_geometry.
